@@ -37,6 +37,8 @@ import (
 	"github.com/dadrus/heimdall/verif/hx"
 )
 
+const fixtureDirEnv = "VERIF_C17_FIXTURE_DIR"
+
 const (
 	hostIDP = "idp.local"
 	hostAPI = "api.local"
@@ -70,8 +72,16 @@ func getFixture() *fixture {
 	fxOnce.Do(func() {
 		f := &fixture{tokens: map[string]string{}}
 
-		dir, err := os.MkdirTemp("", "verif-c17-")
-		must(err)
+		// a child of the race pass gets its scratch directory from the parent (which removes it even if the child dies)
+		dir := os.Getenv(fixtureDirEnv)
+		if dir != "" {
+			must(os.MkdirAll(dir, 0o700))
+		} else {
+			var err error
+
+			dir, err = os.MkdirTemp("", "verif-c17-")
+			must(err)
+		}
 
 		f.dir = dir
 		f.ksPath = filepath.Join(dir, "signer.pem")
